@@ -38,7 +38,7 @@ def ext(v):
         return base(v) + ["@/home/", "rel/home"]
     if v in HOME_TYPE:
         return base(v) + ["rel/dir", "@/t/"]
-    return base(v) + [":", "rel::@/b:", "@/a/:@/a:@/b//"]
+    return base(v) + [":", "rel::@/b:", "@/a/:@/a:@/b//", "@/x/../a:@/b/."]
 
 
 def pairwise(domains, rng, tries=30):
